@@ -12,17 +12,19 @@ LEVEL_TEXT = (
     "(R1) every closure created in a loop / comprehension in recorder construction code binds the iteration "
     "variables it reads; (R2, R3, R4, R6) finite-model interpretation of the CSV recorder (__init__ then "
     "register; the file and the csv writer are symbolic objects whose writerow / flush calls are recorded; "
-    "closures with Python's default-argument and late-binding semantics) for default and extra fields and the "
-    "four (only_record_best, is_best) combinations: the header is the list of columns of the field mapping and is"
-    " written once, every row has one cell per column, a row is written iff (not only_best) or is_best, column "
-    "FitnessK holds component K of the registered individual (three objectives), extractors are applied to the "
-    "registered individual, and every row written is followed by a flush of the log file; (R5) only the recorder "
-    "touches the file / writer handles; (R7) evaluate() of every tracker is interpreted with two recorders: "
-    "whatever the comparison outcomes, every individual handed back by the evaluator is registered with every "
-    "recorder exactly once; two recorders with different gates (and module-level state shared within a trace) do "
-    "not influence each other's columns; (R8) the is_best flag handed to recorders is the reference one (the C12 "
-    "tracker models: batches with two improvements, ties, an existing best). Atomicity of one flushed write under"
-    " a kill inside write(2) is not decided."
+    "closures with Python's default-argument and late-binding semantics) for the default field table, an "
+    "explicitly empty one and a custom one, each with and without extra fields, and the four (only_record_best, "
+    "is_best) combinations: the header is the list of columns of the field mapping and is written once, every row"
+    " has one cell per column, a row is written iff (not only_best) or is_best, column FitnessK holds component K"
+    " of the registered individual (three objectives), extractors are applied to the registered individual, and "
+    "every row written is followed by a flush of the log file; (R5) only the recorder touches the file / writer "
+    "handles; (R7) evaluate() of every tracker is interpreted with two recorders: whatever the comparison "
+    "outcomes, every individual handed back by the evaluator is registered with every recorder exactly once; two "
+    "recorders with different gates (and module-level state shared within a trace) do not influence each other's "
+    "columns; (R8) the is_best flag handed to recorders is the reference one (the C12 tracker models: batches "
+    "with two improvements, ties, an existing best). (R9) recorder construction code keeps no table keyed by id()"
+    " / hash() of an individual (the address of a collected individual is reused, a later individual would be "
+    "logged with a dead one's value). Atomicity of one flushed write under a kill inside write(2) is not decided."
 )
 
 SEARCH_RECORDER = "geneticengine.evaluation.recorder.SearchRecorder"
